@@ -300,6 +300,7 @@ fn worker_main(args: &[String]) -> ! {
         }
         let _ = out.flush();
     };
+    let mut samples_sent = 0u32;
     for (pos, e) in entries.iter().enumerate().skip(start) {
         let _ = writeln!(out, "P {pos}");
         let _ = out.flush();
@@ -319,6 +320,12 @@ fn worker_main(args: &[String]) -> ! {
                 }
                 let h = mix64(fnv64(fname.as_bytes()), fnv64(&x));
                 if e.mutation != 0 && !fixture_hashes.contains(&fnv64(&x)) {
+                    if samples_sent < 1 && pos % 97 == 13 {
+                        // a concrete accepted, mutated input for the evidence file
+                        samples_sent += 1;
+                        let doc = json!({"kind": "accepted mutated input (parse-build-parse-build judged)", "format": fname, "seed_name": seeds[e.seed].name, "mutation_kind": kind, "input_len": x.len(), "input": hex_short(&x, 96), "rebuilt_len": d.b1.as_ref().map(Vec::len), "rebuilt_equals_input": d.b1.as_deref().is_some_and(|b| b == x.as_slice()), "violations": d.viols.len()});
+                        let _ = writeln!(out, "S {doc}");
+                    }
                     hashes.push(h);
                     if d.b1.as_deref().is_some_and(|b| b != x.as_slice()) {
                         *counters.entry(format!("{fname}.accepted_non_canonical")).or_insert(0) += 1;
@@ -394,6 +401,11 @@ fn run_workers(ctx: &Ctx, seeds: &[Seed]) {
                                         if k == "inputs_tried" {
                                             ctx.add_evals(v);
                                         }
+                                    }
+                                }
+                                "S " => {
+                                    if let Ok(v) = serde_json::from_str::<Value>(rest) {
+                                        ctx.sample(v);
                                     }
                                 }
                                 "H " => ctx.add_nontrivial(rest.split_whitespace().filter_map(|h| h.parse::<u64>().ok())),
